@@ -25,14 +25,32 @@
     changes (`C07_enter`). This is "no further limited action from that state until the machine
     re-enters it from another state" (`Proofs/Exhausted.lean`, a fifth induction over the mutual
     recursion).
+  * the exact COUNT over calls (`Proofs/Countdown.lean`), for a machine whose current state has no
+    transition on the completion event (so that the completion cannot change the state):
+    `C07_completion_step` (one PaddingSent in a single-event call: either the limit goes down by
+    exactly one, nothing is returned and LimitReached is not delivered, or — limit at most 1 and
+    the action has a limit — the decrement to 0 is directly followed by the delivery of
+    LimitReached in the same call), the complete effect on the framework in both cases
+    (`C07_paddingSent_keep` / `_fire`, `C07_timerBegin_keep` / `_fire`, and for BlockingBegin, which
+    is delivered to every machine but counted for one, `C07_blockingBegin_keep` / `_fire`),
+    `C07_countdown` / `C07_countdown_timerBegin` / `C07_countdown_blockingBegin` (after `k`
+    completions in `k` calls the limit is `L - k`, the state is unchanged, LimitReached was never
+    delivered, the limit never resampled), `C07_countdown_fire` / `C07_countdown_blockingBegin_fire`
+    (the `L`-th completion delivers LimitReached), and `C07_other_machine_completion` (a
+    completion reported for another machine or an unknown id never consumes the limit), and,
+    for ANY history of ANY batches, machines and oracle, with no assumption at all:
+    `C07_decrements_le_completions` (the limit of a machine is decremented at most as often as
+    completions for that machine are reported; the decrement is logged by `decrementLimit` only)
+    and `C07_no_completion_no_decrement`.
   The implementation is tied to this by the correspondence on (state, limit) after every call
   (tag RS), the internal log with the hook's limit entries (tag L) and `C07.monitor`.
 -/
 import MbVerif.Proofs.SafeCall
 import MbVerif.Proofs.Exhausted
+import MbVerif.Proofs.Countdown
 
 namespace Mb.C07
-open Mb
+open Mb Mb.Countdown
 
 variable {σ : Type} (ρ : Oracle σ)
 
@@ -192,5 +210,328 @@ theorem C07_exhausted_history (mi : Nat) (h : List Call) (s : Fw σ)
         cases cs with
         | nil => exact hs1 a ha
         | cons d ds => exact hs2 (by simp) a ha
+
+/-! ### the exact count over calls -/
+
+/-- **One completion in a single-event call.** Machine `mi` is in a state `st` (not END) that has
+    no transition on PaddingSent, no signal is pending, and the call reports one PaddingSent for
+    `mi`. Then
+    (a) if the limit is at least 2, or the state's action carries no limit: afterwards the machine's
+        runtime is the old one with the limit one lower (never below 0), one more padding packet
+        accounted and the per-call CounterZero flags reset; its slot is empty; the call logged
+        exactly the delivery and the decrement — in particular no LimitReached;
+    (b) if the limit is at most 1 and the state's action carries a limit: the call's log segment is
+        the delivery of PaddingSent, the decrement to 0, then at once the delivery of LimitReached
+        to the machine in its unchanged state, then whatever that causes (the log is newest
+        first). -/
+theorem C07_completion_step (mi : Nat) (t : Int) (s : Fw σ) (r : Runtime) (m : Machine) (st : State)
+    (hr : s.rt[mi]? = some r) (hm : s.machines[mi]? = some m) (hst : m.states[r.currentState]? = some st)
+    (hne : r.currentState ≠ STATE_END) (hsig : s.signalPending = none) (hlen : mi < s.actions.length)
+    (htr : st.transitions[Event.paddingSent.toNat]? = some none) :
+    (2 ≤ r.stateLimit ∨ st.action = none ∨ (∃ a, st.action = some a ∧ a.hasLimit = false) →
+      (triggerEvents ρ [.paddingSent mi] t s).rt[mi]? =
+        some { r with stateLimit := r.stateLimit - 1, zeroedA := false, zeroedB := false,
+                      acct := { r.acct with paddingSent := r.acct.paddingSent + 1 } } ∧
+      (triggerEvents ρ [.paddingSent mi] t s).actions[mi]? = some none ∧
+      (triggerEvents ρ [.paddingSent mi] t s).log =
+        .limit mi (r.stateLimit - 1) true :: .trans mi Event.paddingSent.toNat r.currentState :: s.log ∧
+      ∃ l, (triggerEvents ρ [.paddingSent mi] t s).log = l ++ s.log ∧
+        ∀ st', LogEntry.trans mi Event.limitReached.toNat st' ∉ l) ∧
+    (r.stateLimit ≤ 1 → ∀ a, st.action = some a → a.hasLimit = true →
+      ∃ l, (triggerEvents ρ [.paddingSent mi] t s).log =
+        l ++ .trans mi Event.limitReached.toNat r.currentState :: .limit mi 0 true ::
+          .trans mi Event.paddingSent.toNat r.currentState :: s.log) := by
+  refine ⟨fun h => ?_, fun h1 a hact hl => ?_⟩
+  · have hk : ∀ a, st.action = some a → a.hasLimit = true → 2 ≤ r.stateLimit := by
+      intro a ha hl
+      rcases h with h | h | ⟨a', ha', hl'⟩
+      · exact h
+      · rw [h] at ha; cases ha
+      · rw [ha'] at ha; cases ha; rw [hl] at hl'; cases hl'
+    have hc := call_paddingSent_keep ρ mi t s r m st hr hm hne hst htr hsig hk
+    exact ⟨hc.rt, hc.slot hlen, hc.log, hc.noLimitReached (by decide)⟩
+  · exact (call_paddingSent_fire ρ mi t s r m st a hr hm hne hst htr hsig hlen hact hl h1).log
+
+/-- PaddingSent, case (a), the complete effect of the call on the framework (`CallKeep`: the
+    machine's runtime, every other runtime, the exact log, all slots empty, machines, pending
+    signal, fault flag, random state and framework-wide accounting) -/
+theorem C07_paddingSent_keep (mi : Nat) (t : Int) (s : Fw σ) (r : Runtime) (m : Machine) (st : State)
+    (hr : s.rt[mi]? = some r) (hm : s.machines[mi]? = some m) (hne : r.currentState ≠ STATE_END)
+    (hst : m.states[r.currentState]? = some st) (htr : st.transitions[Event.paddingSent.toNat]? = some none)
+    (hsig : s.signalPending = none)
+    (hk : ∀ a, st.action = some a → a.hasLimit = true → 2 ≤ r.stateLimit) :
+    CallKeep mi .paddingSent r
+      { r with stateLimit := r.stateLimit - 1, zeroedA := false, zeroedB := false,
+               acct := { r.acct with paddingSent := r.acct.paddingSent + 1 } }
+      { s.g with now := t, paddingSent := s.g.paddingSent + 1 } s
+      (triggerEvents ρ [.paddingSent mi] t s) :=
+  call_paddingSent_keep ρ mi t s r m st hr hm hne hst htr hsig hk
+
+/-- PaddingSent, case (b), in full (`CallFire`): LimitReached is delivered to a framework in which
+    the machine's limit is 0 and every slot is empty -/
+theorem C07_paddingSent_fire (mi : Nat) (t : Int) (s : Fw σ) (r : Runtime) (m : Machine) (st : State) (a : Action)
+    (hr : s.rt[mi]? = some r) (hm : s.machines[mi]? = some m) (hne : r.currentState ≠ STATE_END)
+    (hst : m.states[r.currentState]? = some st) (htr : st.transitions[Event.paddingSent.toNat]? = some none)
+    (hsig : s.signalPending = none) (hlen : mi < s.actions.length)
+    (hact : st.action = some a) (hl : a.hasLimit = true) (h1 : r.stateLimit ≤ 1) :
+    CallFire ρ mi .paddingSent r
+      { r with stateLimit := 0, zeroedA := false, zeroedB := false,
+               acct := { r.acct with paddingSent := r.acct.paddingSent + 1 } }
+      { s.g with now := t, paddingSent := s.g.paddingSent + 1 } s
+      (triggerEvents ρ [.paddingSent mi] t s) :=
+  call_paddingSent_fire ρ mi t s r m st a hr hm hne hst htr hsig hlen hact hl h1
+
+/-- TimerBegin, case (a) -/
+theorem C07_timerBegin_keep (mi : Nat) (t : Int) (s : Fw σ) (r : Runtime) (m : Machine) (st : State)
+    (hr : s.rt[mi]? = some r) (hm : s.machines[mi]? = some m) (hne : r.currentState ≠ STATE_END)
+    (hst : m.states[r.currentState]? = some st) (htr : st.transitions[Event.timerBegin.toNat]? = some none)
+    (hsig : s.signalPending = none)
+    (hk : ∀ a, st.action = some a → a.hasLimit = true → 2 ≤ r.stateLimit) :
+    CallKeep mi .timerBegin r
+      { r with stateLimit := r.stateLimit - 1, zeroedA := false, zeroedB := false }
+      { s.g with now := t } s
+      (triggerEvents ρ [.timerBegin mi] t s) :=
+  call_timerBegin_keep ρ mi t s r m st hr hm hne hst htr hsig hk
+
+/-- TimerBegin, case (b) -/
+theorem C07_timerBegin_fire (mi : Nat) (t : Int) (s : Fw σ) (r : Runtime) (m : Machine) (st : State) (a : Action)
+    (hr : s.rt[mi]? = some r) (hm : s.machines[mi]? = some m) (hne : r.currentState ≠ STATE_END)
+    (hst : m.states[r.currentState]? = some st) (htr : st.transitions[Event.timerBegin.toNat]? = some none)
+    (hsig : s.signalPending = none) (hlen : mi < s.actions.length)
+    (hact : st.action = some a) (hl : a.hasLimit = true) (h1 : r.stateLimit ≤ 1) :
+    CallFire ρ mi .timerBegin r
+      { r with stateLimit := 0, zeroedA := false, zeroedB := false }
+      { s.g with now := t } s
+      (triggerEvents ρ [.timerBegin mi] t s) :=
+  call_timerBegin_fire ρ mi t s r m st a hr hm hne hst htr hsig hlen hact hl h1
+
+/-- BlockingBegin, case (a). The event is delivered to every machine, the decrement is applied to
+    `mi` only. The other machines may do anything with it (change state, schedule, signal), so
+    the statement is about `mi`'s component and the log; because a neighbour may signal, `mi`'s
+    state must have no transition on Signal. No assumption on the pending-signal slot. -/
+theorem C07_blockingBegin_keep (mi : Nat) (t : Int) (s : Fw σ) (r : Runtime) (m : Machine) (st : State)
+    (hr : s.rt[mi]? = some r) (hm : s.machines[mi]? = some m) (hne : r.currentState ≠ STATE_END)
+    (hst : m.states[r.currentState]? = some st) (htr : st.transitions[Event.blockingBegin.toNat]? = some none)
+    (hns : ∀ vec, st.transitions[Event.signal.toNat]? ≠ some (some vec))
+    (hk : ∀ a, st.action = some a → a.hasLimit = true → 2 ≤ r.stateLimit) :
+    (triggerEvents ρ [.blockingBegin mi] t s).rt[mi]? =
+      some { r with stateLimit := r.stateLimit - 1, zeroedA := false, zeroedB := false } ∧
+    (triggerEvents ρ [.blockingBegin mi] t s).actions[mi]? = (s.actions[mi]?).map (fun _ => none) ∧
+    (triggerEvents ρ [.blockingBegin mi] t s).machines[mi]? = some m ∧
+    ∃ l, (triggerEvents ρ [.blockingBegin mi] t s).log = l ++ s.log ∧
+      (∀ st', LogEntry.trans mi Event.limitReached.toNat st' ∉ l) ∧
+      ∃ l1 l2, l = l1 ++ .limit mi (r.stateLimit - 1) true :: .trans mi Event.blockingBegin.toNat r.currentState :: l2 :=
+  call_blockingBegin_keep ρ mi t s r m st hr hm hne hst htr hns hk
+
+/-- BlockingBegin, case (b): no assumption on signals at all -/
+theorem C07_blockingBegin_fire (mi : Nat) (t : Int) (s : Fw σ) (r : Runtime) (m : Machine) (st : State) (a : Action)
+    (hr : s.rt[mi]? = some r) (hm : s.machines[mi]? = some m) (hne : r.currentState ≠ STATE_END)
+    (hst : m.states[r.currentState]? = some st) (htr : st.transitions[Event.blockingBegin.toNat]? = some none)
+    (hlen : mi < s.actions.length)
+    (hact : st.action = some a) (hl : a.hasLimit = true) (h1 : r.stateLimit ≤ 1) :
+    ∃ l1 l2, (triggerEvents ρ [.blockingBegin mi] t s).log =
+      l1 ++ .trans mi Event.limitReached.toNat r.currentState :: .limit mi 0 true ::
+        .trans mi Event.blockingBegin.toNat r.currentState :: l2 ++ s.log :=
+  call_blockingBegin_fire ρ mi t s r m st a hr hm hne hst htr hlen hact hl h1
+
+/-- **Countdown.** Starting from a sampled limit `L = r.stateLimit`, `k = ts.length` consecutive
+    calls at arbitrary times `ts`, each reporting one PaddingSent for `mi`, in a state without a
+    transition on PaddingSent: if the state's action has a limit then `k < L` is required (the
+    `L`-th completion is `C07_countdown_fire`), otherwise `k` is arbitrary. Afterwards
+    `stateLimit = L - k`, `currentState` (and both counters) unchanged, `k` more padding packets
+    accounted; machines, pending signal, fault flag and random state are unchanged, LimitReached
+    was never delivered to the machine and its limit was never resampled (`Counted`); and (if
+    `k > 0`) every slot is empty. -/
+theorem C07_countdown (mi : Nat) (m : Machine) (st : State) (ts : List Int) (s : Fw σ) (r : Runtime)
+    (hr : s.rt[mi]? = some r) (hm : s.machines[mi]? = some m) (hne : r.currentState ≠ STATE_END)
+    (hst : m.states[r.currentState]? = some st) (htr : st.transitions[Event.paddingSent.toNat]? = some none)
+    (hsig : s.signalPending = none)
+    (hk : ∀ a, st.action = some a → a.hasLimit = true → ts.length < r.stateLimit) :
+    Counted mi
+      { r with stateLimit := r.stateLimit - ts.length, zeroedA := r.zeroedA && ts.isEmpty,
+               zeroedB := r.zeroedB && ts.isEmpty,
+               acct := { r.acct with paddingSent := r.acct.paddingSent + ts.length } }
+      s (runCalls ρ s (ts.map (fun t => ([TEvent.paddingSent mi], t)))) ∧
+    (ts ≠ [] → (runCalls ρ s (ts.map (fun t => ([TEvent.paddingSent mi], t)))).actions = s.actions.map (fun _ => none)) :=
+  countdown_paddingSent ρ mi m st ts s r hr hm hne hst htr hsig hk
+
+/-- the projection of `C07_countdown` asked for: limit `L - k`, state unchanged -/
+theorem C07_countdown_limit (mi : Nat) (m : Machine) (st : State) (ts : List Int) (s : Fw σ) (r : Runtime)
+    (hr : s.rt[mi]? = some r) (hm : s.machines[mi]? = some m) (hne : r.currentState ≠ STATE_END)
+    (hst : m.states[r.currentState]? = some st) (htr : st.transitions[Event.paddingSent.toNat]? = some none)
+    (hsig : s.signalPending = none)
+    (hk : ∀ a, st.action = some a → a.hasLimit = true → ts.length < r.stateLimit) :
+    ∃ r', (runCalls ρ s (ts.map (fun t => ([TEvent.paddingSent mi], t)))).rt[mi]? = some r' ∧
+      r'.stateLimit = r.stateLimit - ts.length ∧ r'.currentState = r.currentState :=
+  ⟨_, (countdown_paddingSent ρ mi m st ts s r hr hm hne hst htr hsig hk).1.rt, rfl, rfl⟩
+
+/-- **The `L`-th completion delivers LimitReached.** After `L - 1` counted completions (`L` the
+    sampled limit of a state whose action has a limit; `L = 0` is covered with `ts = []`), the next
+    PaddingSent for the machine is case (b): in that call the decrement to 0 is directly followed by
+    the delivery of LimitReached to the machine, still in the same state. -/
+theorem C07_countdown_fire (mi : Nat) (m : Machine) (st : State) (a : Action) (ts : List Int) (t : Int)
+    (s : Fw σ) (r : Runtime)
+    (hr : s.rt[mi]? = some r) (hm : s.machines[mi]? = some m) (hne : r.currentState ≠ STATE_END)
+    (hst : m.states[r.currentState]? = some st) (htr : st.transitions[Event.paddingSent.toNat]? = some none)
+    (hsig : s.signalPending = none) (hlen : mi < s.actions.length)
+    (hact : st.action = some a) (hl : a.hasLimit = true) (hL : ts.length = r.stateLimit - 1) :
+    ∃ l, (runCalls ρ s ((ts ++ [t]).map (fun t => ([TEvent.paddingSent mi], t)))).log =
+      l ++ .trans mi Event.limitReached.toNat r.currentState :: .limit mi 0 true ::
+        .trans mi Event.paddingSent.toNat r.currentState ::
+        (runCalls ρ s (ts.map (fun t => ([TEvent.paddingSent mi], t)))).log := by
+  obtain ⟨h1, h2⟩ := countdown_paddingSent_fire ρ mi m st a ts t s r hr hm hne hst htr hsig hlen hact hl hL
+  rw [h1]
+  exact h2.log
+
+/-- `C07_countdown_fire` in full (`CallFire` for the last call) -/
+theorem C07_countdown_fire_full (mi : Nat) (m : Machine) (st : State) (a : Action) (ts : List Int) (t : Int)
+    (s : Fw σ) (r : Runtime)
+    (hr : s.rt[mi]? = some r) (hm : s.machines[mi]? = some m) (hne : r.currentState ≠ STATE_END)
+    (hst : m.states[r.currentState]? = some st) (htr : st.transitions[Event.paddingSent.toNat]? = some none)
+    (hsig : s.signalPending = none) (hlen : mi < s.actions.length)
+    (hact : st.action = some a) (hl : a.hasLimit = true) (hL : ts.length = r.stateLimit - 1) :
+    runCalls ρ s ((ts ++ [t]).map (fun t => ([TEvent.paddingSent mi], t))) =
+      triggerEvents ρ [.paddingSent mi] t (runCalls ρ s (ts.map (fun t => ([TEvent.paddingSent mi], t)))) ∧
+    CallFire ρ mi .paddingSent
+      { r with stateLimit := r.stateLimit - ts.length, zeroedA := r.zeroedA && ts.isEmpty,
+               zeroedB := r.zeroedB && ts.isEmpty,
+               acct := { r.acct with paddingSent := r.acct.paddingSent + ts.length } }
+      { r with stateLimit := 0, zeroedA := false, zeroedB := false,
+               acct := { r.acct with paddingSent := r.acct.paddingSent + ts.length + 1 } }
+      { (runCalls ρ s (ts.map (fun t => ([TEvent.paddingSent mi], t)))).g with
+          now := t, paddingSent := (runCalls ρ s (ts.map (fun t => ([TEvent.paddingSent mi], t)))).g.paddingSent + 1 }
+      (runCalls ρ s (ts.map (fun t => ([TEvent.paddingSent mi], t))))
+      (triggerEvents ρ [.paddingSent mi] t (runCalls ρ s (ts.map (fun t => ([TEvent.paddingSent mi], t))))) :=
+  countdown_paddingSent_fire ρ mi m st a ts t s r hr hm hne hst htr hsig hlen hact hl hL
+
+/-- the countdown for TimerBegin completions -/
+theorem C07_countdown_timerBegin (mi : Nat) (m : Machine) (st : State) (ts : List Int) (s : Fw σ) (r : Runtime)
+    (hr : s.rt[mi]? = some r) (hm : s.machines[mi]? = some m) (hne : r.currentState ≠ STATE_END)
+    (hst : m.states[r.currentState]? = some st) (htr : st.transitions[Event.timerBegin.toNat]? = some none)
+    (hsig : s.signalPending = none)
+    (hk : ∀ a, st.action = some a → a.hasLimit = true → ts.length < r.stateLimit) :
+    Counted mi
+      { r with stateLimit := r.stateLimit - ts.length, zeroedA := r.zeroedA && ts.isEmpty,
+               zeroedB := r.zeroedB && ts.isEmpty }
+      s (runCalls ρ s (ts.map (fun t => ([TEvent.timerBegin mi], t)))) ∧
+    (ts ≠ [] → (runCalls ρ s (ts.map (fun t => ([TEvent.timerBegin mi], t)))).actions = s.actions.map (fun _ => none)) :=
+  countdown_timerBegin ρ mi m st ts s r hr hm hne hst htr hsig hk
+
+/-- the countdown for BlockingBegin completions, whatever the other machines do with the
+    BlockingBegin events they receive (the machine's state has no transition on Signal either) -/
+theorem C07_countdown_blockingBegin (mi : Nat) (m : Machine) (st : State) (ts : List Int) (s : Fw σ) (r : Runtime)
+    (hr : s.rt[mi]? = some r) (hm : s.machines[mi]? = some m) (hne : r.currentState ≠ STATE_END)
+    (hst : m.states[r.currentState]? = some st) (htr : st.transitions[Event.blockingBegin.toNat]? = some none)
+    (hns : ∀ vec, st.transitions[Event.signal.toNat]? ≠ some (some vec))
+    (hk : ∀ a, st.action = some a → a.hasLimit = true → ts.length < r.stateLimit) :
+    (runCalls ρ s (ts.map (fun t => ([TEvent.blockingBegin mi], t)))).rt[mi]? =
+      some { r with stateLimit := r.stateLimit - ts.length, zeroedA := r.zeroedA && ts.isEmpty,
+                    zeroedB := r.zeroedB && ts.isEmpty } ∧
+    (runCalls ρ s (ts.map (fun t => ([TEvent.blockingBegin mi], t)))).machines[mi]? = some m ∧
+    (mi < s.actions.length → mi < (runCalls ρ s (ts.map (fun t => ([TEvent.blockingBegin mi], t)))).actions.length) ∧
+    (ts ≠ [] → mi < s.actions.length →
+      (runCalls ρ s (ts.map (fun t => ([TEvent.blockingBegin mi], t)))).actions[mi]? = some none) ∧
+    ∃ l, (runCalls ρ s (ts.map (fun t => ([TEvent.blockingBegin mi], t)))).log = l ++ s.log ∧
+      ∀ st', LogEntry.trans mi Event.limitReached.toNat st' ∉ l :=
+  countdown_blockingBegin ρ mi m st r.currentState hne hst htr hns ts s r hr hm rfl hk
+
+/-- the `L`-th BlockingBegin completion delivers LimitReached -/
+theorem C07_countdown_blockingBegin_fire (mi : Nat) (m : Machine) (st : State) (a : Action) (ts : List Int) (t : Int)
+    (s : Fw σ) (r : Runtime)
+    (hr : s.rt[mi]? = some r) (hm : s.machines[mi]? = some m) (hne : r.currentState ≠ STATE_END)
+    (hst : m.states[r.currentState]? = some st) (htr : st.transitions[Event.blockingBegin.toNat]? = some none)
+    (hns : ∀ vec, st.transitions[Event.signal.toNat]? ≠ some (some vec))
+    (hlen : mi < s.actions.length)
+    (hact : st.action = some a) (hl : a.hasLimit = true) (hL : ts.length = r.stateLimit - 1) :
+    ∃ l1 l2, (runCalls ρ s ((ts ++ [t]).map (fun t => ([TEvent.blockingBegin mi], t)))).log =
+      l1 ++ .trans mi Event.limitReached.toNat r.currentState :: .limit mi 0 true ::
+        .trans mi Event.blockingBegin.toNat r.currentState :: l2 ++
+        (runCalls ρ s (ts.map (fun t => ([TEvent.blockingBegin mi], t)))).log :=
+  countdown_blockingBegin_fire ρ mi m st a ts t s r hr hm hne hst htr hns hlen hact hl hL
+
+/-- **Completions reported for other machines never consume the limit.** `E` is PaddingSent,
+    BlockingBegin or TimerBegin for a machine `j ≠ mi` (or an unknown id `j`). In the single-event
+    call reporting it machine `mi` keeps its state, limit, counters and accounting (only the
+    per-call CounterZero flags are reset by the start of the call), its slot is empty and
+    LimitReached is not delivered to it — provided its current state has no transition on Signal
+    (machine `j` may signal) and, for BlockingBegin (delivered to every machine), none on
+    BlockingBegin. Nothing is assumed about the pending-signal slot or the other machines. -/
+theorem C07_other_machine_completion (mi j : Nat) (hj : j ≠ mi) (E : TEvent) (hE : CompletionFor j E)
+    (t : Int) (s : Fw σ) (r : Runtime) (m : Machine)
+    (hr : s.rt[mi]? = some r) (hm : s.machines[mi]? = some m)
+    (hns : ∀ st vec, m.states[r.currentState]? = some st → st.transitions[Event.signal.toNat]? ≠ some (some vec))
+    (hbb : E = .blockingBegin j →
+      ∀ st vec, m.states[r.currentState]? = some st → st.transitions[Event.blockingBegin.toNat]? ≠ some (some vec)) :
+    (triggerEvents ρ [E] t s).rt[mi]? = some { r with zeroedA := false, zeroedB := false } ∧
+    (triggerEvents ρ [E] t s).actions[mi]? = (s.actions[mi]?).map (fun _ => none) ∧
+    (triggerEvents ρ [E] t s).machines[mi]? = some m ∧
+    ∃ l, (triggerEvents ρ [E] t s).log = l ++ s.log ∧ ∀ st', LogEntry.trans mi Event.limitReached.toNat st' ∉ l :=
+  other_machine_completion ρ mi j hj E hE t s r m hr hm hns hbb
+
+/-- **Only a machine's own completions consume its limit** — for any history of calls with any
+    batches of events, any machines, any oracle, any starting framework: the log segment added by
+    the history holds at most as many decrements of `mi`'s limit (`limit mi _ true`, written by
+    `decrementLimit` and by nothing else) as the history reports completions for `mi`
+    (PaddingSent / BlockingBegin / TimerBegin carrying the id `mi`). Fewer are possible: a
+    completion that changes the machine's state, or reaches a machine in END, is not counted. -/
+theorem C07_decrements_le_completions (mi : Nat) (h : List Call) (s : Fw σ) :
+    ∃ l, (runCalls ρ s h).log = l ++ s.log ∧
+      l.countP (isDecrementOf mi) ≤ (h.map (fun c => c.1.countP (TEvent.completes mi))).sum :=
+  decrements_le_completions ρ mi h s
+
+/-- in particular: completions reported for other machines (and all other events) never
+    decrement the machine's limit -/
+theorem C07_no_completion_no_decrement (mi : Nat) (h : List Call) (s : Fw σ)
+    (hno : ∀ c ∈ h, ∀ e ∈ c.1, TEvent.completes mi e = false) :
+    ∃ l, (runCalls ρ s h).log = l ++ s.log ∧ ∀ x, LogEntry.limit mi x true ∉ l :=
+  no_completion_no_decrement ρ mi h s hno
+
+/-! ### Non-vacuity: the hypotheses are satisfiable and the model computes what the theorems say -/
+
+section Demo
+
+/-- a state with a limited UpdateTimer action and no transitions at all -/
+private def demoSt : State :=
+  { action := some (.updateTimer false { dist := .uniform 0 0, start := 0, max := 0 }
+      (some { dist := .uniform 0 0, start := 0, max := 0 })),
+    counterA := none, counterB := none, transitions := List.replicate 13 none }
+private def demoM : Machine :=
+  { allowedPaddingPackets := 0, maxPaddingFrac := 0, allowedBlockedMicrosec := 0, maxBlockingFrac := 0,
+    states := [demoSt] }
+/-- in state 0 with a sampled limit of 3 -/
+private def demoR : Runtime :=
+  { currentState := 0, stateLimit := 3, counterA := 0, counterB := 0, zeroedA := false, zeroedB := false,
+    acct := { paddingSent := 0, normalSent := 0, blockingDur := 0, machineStart := 0, allowedBlocked := 0 } }
+/-- two copies of the machine -/
+private def demoS : Fw Unit :=
+  { machines := [demoM, demoM], rt := [demoR, demoR], actions := [none, none],
+    g := { now := 0, maxPaddingFrac := 0, maxBlockingFrac := 0, normalSent := 0, paddingSent := 0, blockingDur := 0,
+           blockingStarted := 0, blockingActive := false, start := 0 },
+    signalPending := none, rng := (), fault := none, log := [] }
+private def demoρ : Oracle Unit := { u := fun _ => (0, ()), d := fun _ _ => (0, ()) }
+
+/-- the hypotheses of `C07_completion_step`, `C07_countdown` and `C07_countdown_fire` hold here
+    (machine 0, `L = 3`, two earlier calls) -/
+example : demoS.rt[0]? = some demoR ∧ demoS.machines[0]? = some demoM ∧ demoR.currentState ≠ STATE_END ∧
+    demoM.states[demoR.currentState]? = some demoSt ∧ demoSt.transitions[Event.paddingSent.toNat]? = some none ∧
+    demoS.signalPending = none ∧ 0 < demoS.actions.length ∧
+    (∃ a, demoSt.action = some a ∧ a.hasLimit = true) ∧ [10, 20].length = demoR.stateLimit - 1 := by
+  refine ⟨rfl, rfl, by decide, rfl, by decide, rfl, by decide, ⟨_, rfl, rfl⟩, rfl⟩
+
+/-- two PaddingSent completions: the limit is 3 - 2 -/
+example : ((runCalls demoρ demoS ([10, 20].map (fun t => ([TEvent.paddingSent 0], t)))).rt[0]?).map (·.stateLimit) =
+    some 1 := by decide
+
+/-- the third one delivers LimitReached (event 8) right after the decrement to 0 (newest first) -/
+example : (runCalls demoρ demoS ([10, 20, 30].map (fun t => ([TEvent.paddingSent 0], t)))).log =
+    [.trans 0 8 0, .limit 0 0 true, .trans 0 4 0, .limit 0 1 true, .trans 0 4 0, .limit 0 2 true, .trans 0 4 0] := by
+  decide
+
+/-- completions for machine 1 and for the unknown id 7 do not consume machine 0's limit; a
+    BlockingBegin for machine 0 is delivered to both machines and counted for machine 0 only -/
+example : ((runCalls demoρ demoS [([.paddingSent 1], 10), ([.timerBegin 7], 20), ([.blockingBegin 1], 30),
+      ([.blockingBegin 0], 40)]).rt.map (·.stateLimit)) = [2, 1] := by decide
+
+end Demo
 
 end Mb.C07
